@@ -48,7 +48,7 @@ def write_evidence(root, pid, mod, obs, results, tier, seed, wall, nviol):
                  timeout_s=o.timeout, excluded_known=r.get('excluded') or [],
                  message=(r.get('message') or '')[:240])
         per_ob.append(d)
-    distinct = sum(int(r.get('paths') or 0) for n, r in st.items() if r['status'] in ('confirmed', 'known', 'violation'))
+    distinct = sum(int(r.get('main_paths') if r.get('main_paths') is not None else (r.get('paths') or 0)) for n, r in st.items() if r['status'] in ('confirmed', 'known', 'violation'))
     ev = {
         'property_id': pid, 'tier': tier, 'seed': seed, 'level': LEVEL, 'wall_s': round(wall, 1), 'violations': nviol,
         'coverage': {
@@ -60,10 +60,12 @@ def write_evidence(root, pid, mod, obs, results, tier, seed, wall, nviol):
             'refuted_new': viol, 'inconclusive': inconcl, 'errors': errors,
             'paths': paths, 'solver_queries': queries, 'solver_time_s': solver_s,
             'evaluations': paths, 'distinct_nontrivial': distinct,
-            'rule': 'evaluations = symbolic paths explored by the engines (each path covers every concrete input that follows '
-                    'it); distinct_nontrivial = paths belonging to obligations that reached a definite verdict (paths are '
-                    'distinct by construction: CrossHair never revisits a decision-tree leaf; E2 leaves have pairwise '
-                    'disjoint path conditions).',
+            'rule': 'evaluations = every symbolic path executed by the engines in this run, including the reachability-twin runs '
+                    'and re-runs after excluded counterexamples (each path covers every concrete input that follows it); '
+                    'distinct_nontrivial = decision-tree leaves of the LAST property run (postcondition "_") of the obligations '
+                    'that reached a definite verdict - twin and retry paths are not counted; leaves are distinct by construction '
+                    '(CrossHair never revisits a leaf; E2 leaves have pairwise disjoint path conditions; E3/E4 count candidate '
+                    'schedules / macro edges).',
             'functions_encoded': functions,
             'per_obligation': per_ob,
             'samples': samples[:40],
